@@ -109,6 +109,12 @@ func (s *sortedSet[ElementType, WeightType]) addSorted(element ElementType) {
 			if listElement.unsubscribeFromWeightUpdates != nil {
 				s.mutex.Lock()
 				defer s.mutex.Unlock()
+
+				// ignore weight updates of elements that were removed in the meantime (the subscription is cancelled
+				// after the element was removed, see deleteSorted)
+				if currentElement, exists := s.elements.Get(element); !exists || currentElement != listElement {
+					return
+				}
 			}
 
 			listElement.weight = newWeight
@@ -120,12 +126,21 @@ func (s *sortedSet[ElementType, WeightType]) addSorted(element ElementType) {
 
 // deleteSorted deletes the given element from the sortedElements slice.
 func (s *sortedSet[ElementType, WeightType]) deleteSorted(element ElementType) {
+	// unsubscribe from weight updates only after the mutex was released (deferred calls run in reverse order): a
+	// concurrent weight update holds the execution lock of the subscription while it waits for the mutex, and
+	// unsubscribing waits for that execution lock
+	var unsubscribeFromWeightUpdates func()
+	defer func() {
+		if unsubscribeFromWeightUpdates != nil {
+			unsubscribeFromWeightUpdates()
+		}
+	}()
+
 	s.mutex.Lock()
 	defer s.mutex.Unlock()
 
 	if deletedElement, deleted := s.elements.DeleteAndReturn(element); deleted {
-		// unsubscribe from weight updates
-		deletedElement.unsubscribeFromWeightUpdates()
+		unsubscribeFromWeightUpdates = deletedElement.unsubscribeFromWeightUpdates
 
 		// shift all elements to the right of the deleted element one position to the left
 		for i := deletedElement.index; i < len(s.sortedElements)-1; i++ {
